@@ -278,7 +278,7 @@ Definition block_dup_ok (txs : list tx) : bool :=
 (* mempool: hashArraySidechainTransactionHashes *)
 Definition mempool_keys (t : tx) : list N :=
   if pver t =? 0 then payload_hashes t
-  else if (pver t =? 1) || (pver t =? 2) then somes (out_hashes t)   (* V2 since /repo 8d934843; payload hashes before *)
+  else if (pver t =? 1) || (pver t =? 2) then somes (out_hashes t)   (* V2 since /repo f6815107; payload hashes before *)
   else payload_hashes t.
 
 (* ---------------------------------------------------------------- histories *)
